@@ -198,6 +198,20 @@ def r2_ident_loc(c, facts):
             c.bad(R, '%s:cursor-text-mismatch' % q, '%s converts the cursor against a text that is not the workspace copy of the document' % q)
 
 
+def r3_fresh_and_units(c, facts):
+    import c15
+    import c16
+    R = c.rule('C17.R3', 'FRESH-TEXT: handlers answer from trees of the current texts: every notification marks the workspace stale, requests refresh first, a change batch is applied in order (shared with C15.R1/R2/R4)')
+    c.shared(R, c15.r1_set_stale, 'C15.R1', facts)
+    c.shared(R, c15.r2_refresh_first, 'C15.R2', facts)
+    c.run(lambda c: c15.changes_in_order(c, facts, R))
+    sc = ['oal_client::lsp::unicode::position_to_utf8', 'oal_client::lsp::unicode::utf8_to_position', 'oal_client::lsp::unicode::utf8_range_to_position',
+          'oal_client::lsp::handlers::syntax_at', 'oal_client::lsp::handlers::node_location', 'oal_client::lsp::handlers::go_to_definition', 'oal_client::lsp::handlers::references']
+    c16.run_units(c, facts, rule_prefix='C17.U', scope=sc, must=sc[:3])
+    c.violations = [v for v in c.violations if not (v['key'].startswith('C17.U.') and ':floor:' in v['key'])]
+
+
 def run(c, facts):
+    c.run(r3_fresh_and_units, facts)
     c.run(r1_def_ident, facts)
     c.run(r2_ident_loc, facts)
